@@ -18,7 +18,8 @@ def write(prop, tier, seed, agg, wall, violations, known, inconclusive, jobs, fi
         "rule": prop.rule,
         "samples": _jsonable(agg.samples[:3]) or ["(no non-trivial case observed)"],
         "exhaustive": bool(prop.exhaustive.get(tier, False)),
-        "monitor_counters": {k: int(v) for k, v in sorted(agg.counters.items())},
+        "monitor_counters": {k: int(v) for k, v in sorted(agg.counters.items()) if not k.startswith("anchor_calls ")},
+        "anchored_code_executions": {k[len("anchor_calls "):]: int(v) for k, v in sorted(agg.counters.items()) if k.startswith("anchor_calls ")},
         "unconstrained_or_observed_classes": {k[:200]: int(v) for k, v in sorted(agg.notes.items())},
         "processes": jobs,
     }
